@@ -399,3 +399,18 @@ pub fn upow(b: &B, k: u32, n: usize) -> (B, bool) {
     }
     (acc, ov)
 }
+
+/// compare two patterns of equal length as two's-complement signed numbers
+pub fn scmp(a: &B, b: &B) -> std::cmp::Ordering {
+    let sa = a[a.len() - 1] & 0x80 != 0;
+    let sb = b[b.len() - 1] & 0x80 != 0;
+    if sa != sb {
+        return if sa { std::cmp::Ordering::Less } else { std::cmp::Ordering::Greater };
+    }
+    for i in (0..a.len()).rev() {
+        if a[i] != b[i] {
+            return a[i].cmp(&b[i]);
+        }
+    }
+    std::cmp::Ordering::Equal
+}
